@@ -174,6 +174,23 @@ theorem C06_rejected_decorate_is_invisible (p : Program) (i s f : Nat) (cb info 
 theorem C06_flags_are_honest (p : Program) (s : Nat) (hv : ((runProgram p).1.scope s).verified = true) :
     checkAcyclic (runProgram p).1 s = .acyclic := verified_means_acyclic p s hv
 
+
+/-- non-vacuity (a *test*, run by the evaluator at build time, not a theorem): a second Provide of the same key is rejected;
+    the Invoke that follows answers exactly as the Invoke of the history without that call -/
+def demoTypes : List TypeInfo :=
+  [{ id := 0, kind := .iface, elem := none, impl := [], isErr := true }, { id := 10, kind := .ptr, elem := none, impl := [], isErr := false }]
+def demoFns : List Fn :=
+  [{ id := 1, name := "c", nonfunc := none, ins := [], variadic := false, outs := [.univ 10] },
+   { id := 2, name := "d", nonfunc := none, ins := [], variadic := false, outs := [.univ 10] },
+   { id := 3, name := "i", nonfunc := none, ins := [.univ 10], variadic := false, outs := [] }]
+def demoWith : Program :=
+  { cfg := {}, types := demoTypes, fns := demoFns, script := [],
+    ops := [.provide 0 1 {}, .provide 0 2 {}, .invoke 0 3 false], sameIds := true }
+def demoWithout : Program := { demoWith with ops := [.provide 0 1 {}, .invoke 0 3 false] }
+#guard (match ((runProgram demoWith).2.map (fun r => r.v)) with | [Verdict.ok, Verdict.err _, Verdict.ok] => true | _ => false)
+#guard ((runProgram demoWith).2.getLast?.map fun r => (r.v matches .ok, r.ev.length)) ==
+       ((runProgram demoWithout).2.getLast?.map fun r => (r.v matches .ok, r.ev.length))
+
 #print axioms C06_rejected_provide_is_invisible
 #print axioms C06_rejected_decorate_is_invisible
 #print axioms C06_flags_are_honest
